@@ -2619,10 +2619,10 @@ func (mp *mapProto) lookupJustified() {
 				nc  int
 				pol bool
 			}
-			found := map[string]fact{}    // lookup term key -> presence flag known
-			var lastSnap *Term            // the snapshot of the latest read-map lookup
-			notIn := map[string]bool{}    // snapshot key -> the key is missing from its map
-			amended := map[string]int{}   // snapshot key -> 1 amended, -1 not amended
+			found := map[string]fact{}  // lookup term key -> presence flag known
+			var lastSnap *Term          // the snapshot of the latest read-map lookup
+			notIn := map[string]bool{}  // snapshot key -> the key is missing from its map
+			amended := map[string]int{} // snapshot key -> 1 amended, -1 not amended
 			dirtyMiss, dirtyKnown := false, false
 			for ci, cd := range p.Conds {
 				t, pol := stripNot(cd.T, cd.Pol)
